@@ -55,6 +55,20 @@ Proof.
       destruct (IH s Hi) as (Hc & Hs & Ha & Hv). repeat split; auto. rewrite Hc. lia.
 Qed.
 
+(* InputRef::skip_while: to the end of the run of matching tokens; nothing else changes, the inspector sees every token *)
+Lemma skip_while_spec ws : forall k s, inv s ->
+  cur (skip_while toks k ws s) = skip_ws toks k ws (cur s) /\ sec (skip_while toks k ws s) = sec s /\
+  alt (skip_while toks k ws s) = alt s /\ memo (skip_while toks k ws s) = memo s /\ inv (skip_while toks k ws s).
+Proof.
+  induction k as [|k IH]; intros s Hi; cbn [skip_while skip_ws].
+  - repeat split; auto.
+  - destruct (nth_error toks (cur s)) as [t|] eqn:Et; [|repeat split; auto].
+    destruct (memN t ws); [|repeat split; auto].
+    destruct (IH (mkSt (S (cur s)) (sec s) (alt s) (on_tok t (ust s)) (memo s))) as (Hc & Hs & Ha & Hm & Hv).
+    { unfold Base.inv. cbn. rewrite (ust_at_S _ _ _ Et). now rewrite Hi. }
+    cbn [cur sec alt memo] in *. repeat split; auto.
+Qed.
+
 Lemma one_tok_refines m acc exp s r s1 :
   one_tok m acc exp s = (r, s1) -> inv s ->
   post m s r s1 (Some (one_tok_sem K toks spn acc exp (cur s) (alt s))).
@@ -299,7 +313,7 @@ Lemma it_next_refines : forall i m ctx its s r its' s1,
   it_next spn run m i ctx its s = (r, its', s1) -> inv s ->
   npost m s s1 r its' (it_snext toks spn srun i ctx its (cur s) (alt s)).
 Proof.
-  induction i as [a lo hi|a sep lo hi lead trail|j IHj|f j IHj|f j IHj|a|a lo hi ck];
+  induction i as [a lo hi|a sep lo hi lead trail|j IHj|f j IHj|f j IHj|a|a lo hi ck|a];
     intros m ctx its s r its' s1 H Hi; cbn [it_next it_snext] in *.
   - (* IRep *)
     destruct its; try (injection H as <- <- <-; exact I).
@@ -318,7 +332,7 @@ Proof.
     + destruct P as (v' & ems & -> & ?). exists v', ems. auto.
     + destruct P as (ext & c'' & -> & ?). exists ext, (SCount c''). auto.
   - (* IEnum *)
-    destruct its as [|k js| | |]; try (injection H as <- <- <-; exact I).
+    destruct its as [|k js| | | |]; try (injection H as <- <- <-; exact I).
     destruct (it_next spn run m j ctx js s) as [[r0 js'] s2] eqn:E.
     pose proof (IHj _ _ _ _ _ _ _ E Hi) as P.
     destruct r0; injection H as <- <- <-; cbn in *; auto.
@@ -340,14 +354,14 @@ Proof.
     + destruct P as (v' & ems & -> & -> & Hsec & Hu). eexists _, ems. rewrite mapv_bindv, Hu. auto.
     + destruct P as (ext & c'' & -> & ?). exists ext, c''. auto.
   - (* IOrNot *)
-    destruct its as [| |fin| |]; try (injection H as <- <- <-; exact I).
+    destruct its as [| |fin| | |]; try (injection H as <- <- <-; exact I).
     destruct fin.
     + injection H as <- <- <-. exists []. rewrite app_nil_r. repeat split; auto.
     + destruct (run m a ctx s) as [r1 s2] eqn:E. use HR E. destruct r1; injection H as <- <- <-; try exact I.
       * ok_elim P. exists v', ems. auto.
       * err_elim P. rewrite (rewind_save _ _ _ Hsec). exists []. cbn. rewrite app_nil_r. repeat split; auto.
   - (* IRepCfg *)
-    destruct its as [| | |c clo chi|k]; try (injection H as <- <- <-; exact I).
+    destruct its as [| | |c clo chi|k|]; try (injection H as <- <- <-; exact I).
     + destruct (rep_next run m a clo chi ctx c s) as [[r0 c'] s2] eqn:E. injection H as <- <- <-.
       pose proof (rep_next_refines _ _ _ _ _ _ _ _ _ _ E Hi) as P.
       destruct r0; cbn in *; auto.
@@ -358,6 +372,16 @@ Proof.
       destruct (run m (TryMap PFalse FId k Empty) ctx s) as [r1 s2] eqn:E. use HR E.
       destruct r1; injection H as <- <- <-; try exact I.
       err_elim P. exists ext, (SFail k). auto.
+  - (* IIntoIter *)
+    destruct its as [| | | | |[l|]]; try (injection H as <- <- <-; exact I).
+    + destruct l as [|x l]; injection H as <- <- <-.
+      * exists []. rewrite app_nil_r. repeat split; auto.
+      * exists x, []. rewrite app_nil_r. repeat split; auto.
+    + destruct (run Emit a ctx s) as [r1 s2] eqn:E. use HR E. destruct r1; try (injection H as <- <- <-; exact I).
+      * ok_elim P. subst v. cbn [getv bindv] in H. destruct (val_items v') as [|x l]; injection H as <- <- <-.
+        -- exists ems. repeat split; auto.
+        -- exists x, ems. repeat split; auto.
+      * injection H as <- <- <-. err_elim P. exists ext, (SInto None). auto.
 Qed.
 
 (* machine items vs specification items *)
@@ -950,7 +974,7 @@ Proof.
       destruct r0; try trivial_res H'; inv_pair H'.
       - destruct E as (sitems & ems & -> & _ & Hsec & Hu). fin_ok.
       - destruct E as (ext & -> & Hsec). fin_err. }
-    destruct i as [a lo hi| | | | | |]; try (eapply Hdrive; exact H).
+    destruct i as [a lo hi| | | | | | |]; try (eapply Hdrive; exact H).
     destruct lo as [|lo]; [|eapply Hdrive; exact H].
     destruct hi as [hi|]; [eapply Hdrive; exact H|].
     eapply (rep_fast_refines _ _ IH s) with (c := 0) (sacc := []) (sacce := []) in H; eauto; [|now rewrite app_nil_r].
@@ -966,7 +990,7 @@ Proof.
       rewrite (irel_vals _ _ Hrel), (Forall2_len _ _ _ Hrel). reflexivity.
     + destruct E as (ext & -> & Hsec). fin_err.
   - (* CollectExactly *)
-    destruct n0 as [|k0]; [destruct (its_fail (mk_iter i ctx)) as [e0|]; [exact (IH _ _ _ _ _ _ H Hinv)|]|].
+    destruct n0 as [|k0]; [destruct (it_eager i ctx) as [e0|]; [exact (IH _ _ _ _ _ _ H Hinv)|]|].
     + match type of H with context [drive ?a ?b ?c ?d ?e ?f ?g ?h ?pa 0 [] s] =>
         destruct (drive a b c d e f g h pa 0 [] s) as [[[r0 acc'] fl] s2] eqn:E end.
       eapply (drive_refines _ _ IH s) with (sacc := []) (sacce := []) in E; eauto; [|now rewrite app_nil_r].
@@ -1153,6 +1177,16 @@ Proof.
     destruct r1; try trivial_res H.
     + inv_pair H. ok_elim P. cbn. fin_ok.
     + err_elim P. destruct (alt s2) as [[q e]|]; [|trivial_res H]. inv_pair H. cbn. fin_err.
+  - (* Padded *)
+    destruct (skip_while_spec ws (length toks) s Hinv) as (Hc0 & Hs0 & Ha0 & _ & Hi0).
+    destruct (go n m g ctx (skip_while toks (length toks) ws s)) as [r1 s2] eqn:E. use IH E.
+    rewrite Hc0, Ha0, ?Hs0 in P.
+    destruct r1; try trivial_res H; inv_pair H.
+    + ok_elim P. assert (Hi2 : inv s2) by exact Hu.
+      destruct (skip_while_spec ws (length toks) s2 Hi2) as (Hc2 & Hs2 & Ha2 & _ & Hi3).
+      do 3 eexists. rewrite Ha2, Hc2, Hs2. split; [reflexivity|]. split; [assumption|]. split; [reflexivity|].
+      split; [rewrite Hsec, Hs0; reflexivity|]. unfold Base.inv in Hi3. rewrite Hc2 in Hi3. exact Hi3.
+    + err_elim P. cbn. fin_err.
 Qed.
 
 End Refine.
